@@ -13,6 +13,7 @@ import (
 	"strconv"
 	"strings"
 	"sync"
+	"sync/atomic"
 	"testing"
 	"testing/synctest"
 	"time"
@@ -290,7 +291,16 @@ func (l capLog) Printf(f string, v ...any) { l.put(fmt.Sprintf(f, v...) + "\n") 
 
 func (d *driver) now() int64 { return int64(time.Since(d.t0) / time.Millisecond) }
 
+// progress counts what the harness has done so far (observations, bursts,
+// schedules); the wall-clock watchdog of TestDrive reads it from outside the
+// bubble.  curDriver is the driver of the schedule that is running.
+var (
+	progress  atomic.Int64
+	curDriver atomic.Pointer[driver]
+)
+
 func (d *driver) log(o Obs) {
+	progress.Add(1)
 	d.mu.Lock()
 	o.T = d.now()
 	o.B = d.burst
@@ -1036,6 +1046,7 @@ func runSchedule(t *testing.T, s *Sched, idx int) *Result {
 	res := &Result{ID: s.ID, Idx: idx, Status: "ok", Procs: runtime.GOMAXPROCS(0)}
 	d := &driver{t: t, s: s, ops: map[int]*opState{}, quit: make(chan struct{}), rel: map[int64]chan Label{},
 		lastSub: map[int][]int64{}, lastReg: map[int][]int64{}, stallKick: make(chan struct{}, 1), t0: time.Now(), burst: -1, doneCh: make(chan struct{})}
+	curDriver.Store(d)
 	cp, rp := transport.LinkedPeers()
 	d.rp = rp
 	first := make(chan wamp.Message, 1)
@@ -1125,6 +1136,7 @@ func runSchedule(t *testing.T, s *Sched, idx int) *Result {
 	}
 	armed := false
 	for bi, b := range s.Bursts {
+		progress.Add(1)
 		d.mu.Lock()
 		d.burst = bi
 		d.mu.Unlock()
@@ -1251,6 +1263,48 @@ func TestDrive(t *testing.T) {
 		out.Write(append(b, '\n'))
 		out.Sync()
 	}
+	// Wall-clock watchdog.  Virtual time only moves when every goroutine of
+	// the bubble is durably blocked; a goroutine that waits for a mutex (or
+	// spins) is not, so a client stuck that way freezes the bubble for ever
+	// and neither the hang oracle of runSchedule nor synctest's deadlock
+	// detection is ever reached.  This goroutine lives outside the bubble (real
+	// clock): when the harness has made no progress for DRIVE_WATCHDOG_MS it
+	// reports the running schedule as hung, with every goroutine's stack, and
+	// leaves the process.
+	limit := 15 * time.Second
+	if ms, _ := strconv.Atoi(os.Getenv("DRIVE_WATCHDOG_MS")); ms > 0 {
+		limit = time.Duration(ms) * time.Millisecond
+	}
+	var running atomic.Int64
+	running.Store(-1)
+	go func() {
+		last, since := progress.Load(), time.Now()
+		for {
+			time.Sleep(100 * time.Millisecond)
+			if p := progress.Load(); p != last || running.Load() < 0 {
+				last, since = p, time.Now()
+				continue
+			}
+			if time.Since(since) < limit {
+				continue
+			}
+			d := curDriver.Load()
+			res := &Result{Idx: int(running.Load()), Status: "hang", Procs: runtime.GOMAXPROCS(0), Obs: []Obs{}}
+			left := clientGoroutines()
+			res.Why = fmt.Sprintf("no progress for %v of wall-clock time: a goroutine waits for a lock (or spins), the bubble can never become idle", limit) +
+				" | " + topFrames(left)
+			res.Stacks = strings.Join(left, "\n\n")
+			if d != nil {
+				res.ID = d.s.ID
+				if d.mu.TryLock() {
+					res.Obs = append([]Obs(nil), d.obs...)
+					d.mu.Unlock()
+				}
+			}
+			emit(res)
+			os.Exit(3)
+		}
+	}()
 	sc := bufio.NewScanner(f)
 	sc.Buffer(make([]byte, 1<<20), 1<<26)
 	idx := -1
@@ -1266,6 +1320,9 @@ func TestDrive(t *testing.T) {
 		emit(map[string]any{"begin": idx, "id": s.ID})
 		var res *Result
 		i := idx
+		curDriver.Store(nil)
+		progress.Add(1)
+		running.Store(int64(idx))
 		synctest.Test(t, func(t *testing.T) {
 			res = runSchedule(t, &s, i)
 			if res.Status == "hang" || res.Status == "leak" {
@@ -1274,6 +1331,7 @@ func TestDrive(t *testing.T) {
 				os.Exit(3)
 			}
 		})
+		running.Store(-1)
 		emit(res)
 	}
 }
